@@ -24,6 +24,7 @@ def run(ctx):
         "assumed, not verified: the Solidity contracts' event vocabulary (contractPurchased, contractClosed, cipherTextUpdated, purchaseInfoUpdated) and that new terms of a running contract are held back until its close (futureTerms); ECIES itself (C18)",
     ]
     ctx.assumptions += ["events are handled one at a time with quiescence in between; an event at the very second a contract ends is not judged", "a node failure is a refused eth_call (the subscription itself stays up)"]
+    L.regen(ctx, ["C08"])
     L.prove(ctx)
     if not L.build_driver(ctx):
         return
